@@ -20,21 +20,21 @@ Lemma perm_seq_all (l : list nat) n : Permutation l (seq 0 n) -> forall q, (q < 
 Proof. intros H q Hq. apply (Permutation_in _ (Permutation_sym H)). apply in_seq. lia. Qed.
 
 (* the final stage on the graph left by the KNN-supervised search *)
-Lemma sup_final_graph fmax thr one d labels gL best efin :
+Lemma sup_final_graph fmax thr one d labels gL best efin gdens0 :
   0 < fmax ->
   (forall i j, (i < length labels)%nat -> (j < length labels)%nat -> i <> j -> 0 <= d i j < fmax) ->
   sup_state labels gL ->
   forall g2 cmm2, arcs_and_pdf ROps fmax thr one 1000 best d efin gL = (g2, cmm2) ->
-  exists g', knn_sup_final ROps fmax thr one 1000 best labels (k_gdens gL) d efin = (g', cmm2) /\
+  exists g', knn_sup_final ROps fmax thr one 1000 best labels gdens0 d efin = (g', cmm2) /\
              clustering_sup (nltb ROps) (fzero ROps) fmax (fbot ROps fmax) true g2
              = with_order g' (k_order gL ++ k_order g').
 Proof.
   intros Hfmax Hd HS g2 cmm2 HA.
-  pose proof (sup_final_sim ROps fmax thr one 1000 d labels gL best efin HS) as HF. cbv zeta in HF.
+  pose proof (sup_final_sim ROps fmax thr one 1000 d labels gL best efin gdens0 HS) as HF. cbv zeta in HF.
   rewrite HA in HF.
-  pose proof (knn_sup_final_forest fmax thr one (k_gdens gL) best labels d efin Hfmax Hd) as T.
+  pose proof (knn_sup_final_forest fmax thr one gdens0 best labels d efin Hfmax Hd) as T.
   unfold knn_sup_final in *.
-  destruct (arcs_and_pdf ROps fmax thr one 1000 best d efin (fit_start ROps labels (k_gdens gL))) as [gb cmmb].
+  destruct (arcs_and_pdf ROps fmax thr one 1000 best d efin (fit_start ROps labels gdens0)) as [gb cmmb].
   cbn [fst snd] in HF. destruct HF as (Ecmm & Encl & Hlp & rem & C). subst cmmb.
   set (gB := clustering_sup (nltb ROps) (fzero ROps) fmax (fbot ROps fmax) true gb) in *.
   exists gB. split; [reflexivity|].
@@ -46,22 +46,22 @@ Proof.
 Qed.
 
 (* the final stage on the graph left by the unsupervised search *)
-Lemma unsup_final_graph fmax thr one d labels g best efin :
+Lemma unsup_final_graph fmax thr one d labels g best efin gdens0 :
   (best <= length labels - 1)%nat ->
   0 < fmax ->
   (forall i j, (i < length labels)%nat -> (j < length labels)%nat -> i <> j -> 0 <= d i j < fmax) ->
   unsup_state labels g ->
   forall g2 cmm2, arcs_and_pdf ROps fmax thr one 1000 best d efin (destroy_arcs g) = (g2, cmm2) ->
-  exists g', unsup_final ROps fmax thr one 1000 best labels (k_gdens g) d efin = (g', cmm2) /\
+  exists g', unsup_final ROps fmax thr one 1000 best labels gdens0 d efin = (g', cmm2) /\
              clustering_unsup (nltb ROps) (fzero ROps) fmax (fbot ROps fmax) best g2
              = with_order g' (k_order g ++ k_order g').
 Proof.
   intros Hk Hfmax Hd HS g2 cmm2 HA.
-  pose proof (unsup_final_sim ROps fmax thr one 1000 labels g best d efin HS) as HF. cbv zeta in HF.
+  pose proof (unsup_final_sim ROps fmax thr one 1000 labels g best d efin gdens0 HS) as HF. cbv zeta in HF.
   rewrite HA in HF.
-  pose proof (unsup_final_forest fmax thr one (k_gdens g) best labels d efin Hk Hfmax Hd) as T.
+  pose proof (unsup_final_forest fmax thr one gdens0 best labels d efin Hk Hfmax Hd) as T.
   unfold unsup_final in *.
-  destruct (arcs_and_pdf ROps fmax thr one 1000 best d efin (fit_start ROps labels (k_gdens g))) as [gb cmmb].
+  destruct (arcs_and_pdf ROps fmax thr one 1000 best d efin (fit_start ROps labels gdens0)) as [gb cmmb].
   cbn [fst snd] in HF. destruct HF as (Ecmm & Encl & Hlp & rem & C). subst cmmb.
   set (gB := clustering_unsup (nltb ROps) (fzero ROps) fmax (fbot ROps fmax) best gb) in *.
   exists gB. split; [reflexivity|].
@@ -93,8 +93,8 @@ Theorem knn_sup_fit_selects :
     (forall k, (1 <= k <= max_k)%nat -> 0 <= acc k <= 1) /\
     (forall k, (1 <= k <= max_k)%nat -> acc k <= acc best) /\
     (forall k, (1 <= k < best)%nat -> acc k < acc best) /\
-    exists (gdens : R) (pre : list nat) (g' : @knn R),
-      knn_sup_final ROps fmax thr one 1000 best labels gdens d efin = (g', cmm) /\
+    forall gdens0 : R, exists (pre : list nat) (g' : @knn R),
+      knn_sup_final ROps fmax thr one 1000 best labels gdens0 d efin = (g', cmm) /\
       g = with_order g' (pre ++ k_order g').
 Proof.
   intros fmax thr one eps d dq vlabels ep eq labels max_k efin n Hfmax Hd Hlen Hmk accs best g cmm Hfit. cbv zeta.
@@ -114,11 +114,12 @@ Proof.
   { intros k Hk. apply Hpa, nth_In. lia. }
   assert (Hbest : (1 <= best' <= max_k)%nat) by (destruct Hb as [->|Hb]; lia).
   split; [exact Hbest|]. split; [exact Hacc|].
-  assert (Hfin : exists (gdens : R) (pre : list nat) (g' : @knn R),
-             knn_sup_final ROps fmax thr one 1000 best' labels gdens d efin = (g', cmm2) /\
+  assert (Hfin : forall gdens0 : R, exists (pre : list nat) (g' : @knn R),
+             knn_sup_final ROps fmax thr one 1000 best' labels gdens0 d efin = (g', cmm2) /\
              clustering_sup (nltb ROps) (fzero ROps) fmax (fbot ROps fmax) true g2 = with_order g' (pre ++ k_order g')).
-  { destruct (sup_final_graph fmax thr one d labels gL best' efin Hfmax Hd HS g2 cmm2 HA) as (g' & E1 & E2).
-    exists (k_gdens gL), (k_order gL), g'. split; assumption. }
+  { intros gdens0.
+    destruct (sup_final_graph fmax thr one d labels gL best' efin gdens0 Hfmax Hd HS g2 cmm2 HA) as (g' & E1 & E2).
+    exists (k_order gL), g'. split; assumption. }
   destruct (knn_select_R accs' best' Hsel) as [(B1 & B2 & B3 & B4)|(B1 & B2)].
   - rewrite Hla in B3. split; [exact B3|]. split; [exact B4|exact Hfin].
   - subst best'. rewrite Hla in B2.
@@ -150,8 +151,8 @@ Theorem unsup_fit_selects :
       (min_k <= best < min_k + e)%nat /\
       (forall k, (min_k <= k < min_k + e)%nat -> cut best <= cut k) /\
       (forall k, (min_k <= k < best)%nat -> cut best < cut k) /\
-      exists (gdens : R) (pre : list nat) (g' : @knn R),
-        unsup_final ROps fmax thr one 1000 best labels gdens d efin = (g', cmm) /\
+      forall gdens0 : R, exists (pre : list nat) (g' : @knn R),
+        unsup_final ROps fmax thr one 1000 best labels gdens0 d efin = (g', cmm) /\
         g = with_order g' (pre ++ k_order g').
 Proof.
   intros fmax thr one d ep labels min_k max_k efin n Hfmax Hn Hd Hk Hmk.
@@ -194,6 +195,7 @@ Proof.
   split.
   { intros k Hkk. apply Rltb_true_iff. apply E7. lia. }
   assert (Hb : (min_k + i <= length labels - 1)%nat) by (fold n; lia).
-  destruct (unsup_final_graph fmax thr one d labels g (min_k + i) efin Hb Hfmax Hd US g2 cmm2 HA) as (g' & F1 & F2).
-  exists (k_gdens g), (k_order g), g'. split; assumption.
+  intros gdens0.
+  destruct (unsup_final_graph fmax thr one d labels g (min_k + i) efin gdens0 Hb Hfmax Hd US g2 cmm2 HA) as (g' & F1 & F2).
+  exists (k_order g), g'. split; assumption.
 Qed.
